@@ -1545,3 +1545,103 @@ def gen_C18(rng, tier):
                     h.ops.append("%s=interp@0 %s %s" % (h.newu(), ",".join(pts), ",".join([a, b, a])))
         L.append(h.line())
     return L
+
+
+# ---------------------------------------------------------------------------------------------
+# bounded-exhaustive blocks of the thorough tier: every polynomial of a small shape, every pair
+
+def _enum_upolys(desc, maxdeg):
+    encs = enum_encs(desc)
+    out = [[]]
+    for _ in range(maxdeg + 1):
+        out = [p + [c] for p in out for c in encs]
+    return ["/".join(p) for p in out]
+
+
+def _enum_bpolys(desc, box):
+    encs = enum_encs(desc)
+    cells = [(x, y) for x in range(box) for y in range(box)]
+    out = [[]]
+    for (x, y) in cells:
+        out = [p + ([] if c == encs[0] else ["%d:%d:%s" % (x, y, c)]) for p in out for c in encs]
+    return ["/".join(p) or "-" for p in out]
+
+
+def exhaustive_C05(rng):
+    L = []
+    for (p, n, md) in [(2, 1, 3), (3, 1, 2), (2, 2, 1)]:
+        desc = field_desc(p, n)
+        polys = _enum_upolys(desc, md)
+        for i, f in enumerate(polys):
+            h = H(rng, desc)
+            a = h.newu(); h.ops.append("%s=coefs@0 %s" % (a, f))
+            for g in polys:
+                b = h.newu(); h.ops.append("%s=coefs@0 %s" % (b, g))
+                for op in ("plus", "minus", "times"):
+                    h.ops.append("%s=%s %s %s" % (h.newu(), op, a, b))
+                c = h.newu(); h.ops.append("%s=copy %s" % (c, a)); h.ops.append("%s %s %s" % (rng.choice(["add", "sub", "mult"]), c, b))
+                h.ops.append("eq %s %s" % (a, b))
+            h.ops.append("obs %s" % a)
+            L.append(h.line())
+    return L
+
+
+def exhaustive_C06(rng):
+    L = []
+    for (p, n, fd, gd) in [(2, 1, 4, 3), (3, 1, 3, 2)]:
+        desc = field_desc(p, n)
+        fs, gs = _enum_upolys(desc, fd), [g for g in _enum_upolys(desc, gd) if any(c != "0" for c in g.split("/"))]
+        for f in fs:
+            h = H(rng, desc)
+            a = h.newu(); h.ops.append("%s=coefs@0 %s" % (a, f))
+            for g in gs:
+                b = h.newu(); h.ops.append("%s=coefs@0 %s" % (b, g))
+                h.ops.append("%s,%s=quorem %s %s" % (h.newu(), h.newu(), a, b))
+                h.ops.append("%s=gcd %s %s" % (h.newu(), a, b))
+            L.append(h.line())
+    return L
+
+
+def exhaustive_C08(rng):
+    L = []
+    for (p, n) in [(2, 1), (3, 1)]:
+        desc = field_desc(p, n)
+        polys = _enum_bpolys(desc, 2)
+        for f in polys:
+            h = H(rng, desc, bspec=bspec(rng))
+            a = h.newb(); h.ops.append("%s=map@0 %s" % (a, f))
+            for g in polys:
+                b = h.newb(); h.ops.append("%s=map@0 %s" % (b, g))
+                for op in ("plus", "minus", "times"):
+                    h.ops.append("%s=%s %s %s" % (h.newb(), op, a, b))
+                h.ops.append("eq %s %s" % (a, b))
+            h.ops.append("obs %s" % a)
+            L.append(h.line())
+    return L
+
+
+def exhaustive_C10(rng):
+    L = []
+    for (p, n) in [(2, 1), (3, 1)]:
+        desc = field_desc(p, n)
+        polys = _enum_bpolys(desc, 2)
+        nz = [g for g in polys if g != "-"]
+        for o in ["lex.1", "deglex.0", "wdegrevlex.2.3.1"]:
+            for f in polys:
+                h = H(rng, desc, bspec=bspec(rng, order=o))
+                a = h.newb(); h.ops.append("%s=map@0 %s" % (a, f))
+                for g in nz:
+                    b = h.newb(); h.ops.append("%s=map@0 %s" % (b, g))
+                    h.ops.append("%s,%s=quorem %s %s" % (h.newb(), h.newb(), a, b))
+                # two divisors: a random sample of pairs
+                for _ in range(20):
+                    g1, g2 = rng.choice(nz), rng.choice(nz)
+                    b1 = h.newb(); h.ops.append("%s=map@0 %s" % (b1, g1))
+                    b2 = h.newb(); h.ops.append("%s=map@0 %s" % (b2, g2))
+                    h.ops.append("%s,%s,%s=quorem %s %s %s" % (h.newb(), h.newb(), h.newb(), a, b1, b2))
+                    h.ops.append("%s=rem %s %s %s" % (h.newb(), a, b1, b2))
+                L.append(h.line())
+    return L
+
+
+EXHAUSTIVE = {"C05": exhaustive_C05, "C06": exhaustive_C06, "C08": exhaustive_C08, "C10": exhaustive_C10}
